@@ -34,9 +34,24 @@ type scen struct {
 	B    int    `json:"buffer"`
 	N    int    `json:"burst"`
 	K    int    `json:"consumer_takes"` // items the consumer receives before it stops receiving for good
+	// deep backlog family (Kind "deep") only: after the first burst N was
+	// pushed with no consumer and K items were taken, M more items are pushed
+	// (again with no consumer), then everything is drained. M == 0: plain
+	// push-N-then-drain.
+	M int `json:"second_burst,omitempty"`
 }
 
 func (s scen) String() string {
+	if s.Kind == "deep" {
+		l := fmt.Sprintf("%s:deep/N%d", s.Comp, s.N)
+		if s.Comp == "queue" {
+			l = fmt.Sprintf("deep/B%d/N%d", s.B, s.N)
+		}
+		if s.M > 0 {
+			l += fmt.Sprintf("/K%d/M%d", s.K, s.M)
+		}
+		return l
+	}
 	if s.Comp != "queue" {
 		if s.Kind == "d" {
 			return fmt.Sprintf("%s:%s/N%d/K%d", s.Comp, s.Kind, s.N, s.K)
@@ -131,6 +146,10 @@ type harness struct {
 	sawOvf   bool
 	failSig  string
 	failMsg  string
+	total    int // items the producer sends in the whole execution
+	take     int // items after which the consumer stops receiving
+	pLo, pHi int // the running producer sends pLo..pHi
+	held     int // deep: largest backlog seen at a quiescent point
 }
 
 func (h *harness) fail(sig, msg string) {
@@ -141,7 +160,7 @@ func (h *harness) fail(sig, msg string) {
 
 func (h *harness) producer() {
 	in := h.q.ChanIn()
-	for i := 1; i <= h.sc.N; i++ {
+	for i := h.pLo; i <= h.pHi; i++ {
 		vsched.SendAt("producer.send", in, i)
 		h.sent = i
 	}
@@ -149,7 +168,7 @@ func (h *harness) producer() {
 
 func (h *harness) consumer() {
 	out := h.q.ChanOut()
-	for len(h.recv) < h.sc.K {
+	for len(h.recv) < h.take {
 		v, ok := vsched.RecvAt("consumer.recv", out)
 		h.onRecv(v, ok)
 		if h.failSig != "" {
@@ -166,20 +185,20 @@ func (h *harness) stopper() {
 // onRecv holds the safety oracles evaluated at every receive.
 func (h *harness) onRecv(v interface{}, ok bool) {
 	x, isInt := v.(int)
-	if !ok || !isInt || x < 1 || x > h.sc.N {
-		h.fail("alien:item-never-sent", fmt.Sprintf("scenario %s: consumer received %v (ok=%v) after %v, which the producer never sent (sent 1..%d)", h.sc, v, ok, h.recv, h.sc.N))
+	if !ok || !isInt || x < 1 || x > h.total {
+		h.fail("alien:item-never-sent", fmt.Sprintf("scenario %s: consumer received %v (ok=%v) after %v, which the producer never sent (sent 1..%d)", h.sc, v, ok, abbrev(h.recv), h.total))
 		return
 	}
 	for _, r := range h.recv {
 		if r == x {
 			h.recv = append(h.recv, x)
-			h.fail("dup:item-twice", fmt.Sprintf("scenario %s: consumer received item %d twice: %v", h.sc, x, h.recv))
+			h.fail("dup:item-twice", fmt.Sprintf("scenario %s: consumer received item %d twice: %v", h.sc, x, abbrev(h.recv)))
 			return
 		}
 	}
 	if n := len(h.recv); n > 0 && x < h.recv[n-1] {
 		h.recv = append(h.recv, x)
-		h.fail("order:out-of-order", fmt.Sprintf("scenario %s: consumer received %v but the items were sent as 1..%d in order", h.sc, h.recv, h.sc.N))
+		h.fail("order:out-of-order", fmt.Sprintf("scenario %s: consumer received %v but the items were sent as 1..%d in order", h.sc, abbrev(h.recv), h.total))
 		return
 	}
 	if x != len(h.recv)+1 && !h.stopDone {
@@ -197,6 +216,9 @@ func (h *harness) State() string {
 func (h *harness) Nontrivial() bool { return len(h.overflow()) > 0 }
 
 func (h *harness) Observe() {
+	if h.sc.Kind == "deep" {
+		return // measured at the quiescent points (reading the list is linear)
+	}
 	if n := len(h.overflow()); n > 0 {
 		h.sawOvf = true
 		if n > h.sh.maxOverflow {
@@ -205,9 +227,17 @@ func (h *harness) Observe() {
 	}
 }
 
-func (h *harness) done(name string) bool {
-	t := h.s.Thread(name)
-	return t == nil || t.Done()
+// done: every thread of that name (the deep family starts a second producer
+// and consumer after the first ones finished) has returned.
+func (h *harness) done(name string) bool { return allDone(h.s, name) }
+
+func allDone(s *vsched.Sched, name string) bool {
+	for _, t := range s.Threads() {
+		if t.Name == name && !t.Done() {
+			return false
+		}
+	}
+	return true
 }
 
 func (h *harness) Panicked(t *vsched.Thread) {
@@ -221,14 +251,14 @@ func (h *harness) Failed() bool { return h.failSig != "" }
 func (h *harness) checkDrained(consumerPresent bool) bool {
 	if !h.done("producer") {
 		if !consumerPresent {
-			h.fail("producer-blocked:deadlock-without-consumer", fmt.Sprintf("scenario %s: no consumer is receiving and the producer is blocked after %d of %d sends (buffer %d); overflow=%v; threads: %s", h.sc, h.sent, h.sc.N, h.sc.B, h.overflow(), h.s.Describe()))
+			h.fail("producer-blocked:deadlock-without-consumer", fmt.Sprintf("scenario %s: no consumer is receiving and the producer is blocked after %d of %d sends (buffer %d); overflow=%v; threads: %s", h.sc, h.sent, h.pHi, h.sc.B, abbrevV(h.overflow()), h.s.Describe()))
 		} else {
-			h.fail("deadlock:"+h.sc.Kind, fmt.Sprintf("scenario %s: deadlock, producer completed %d of %d sends, consumer received %v; threads: %s", h.sc, h.sent, h.sc.N, h.recv, h.s.Describe()))
+			h.fail("deadlock:"+h.sc.Kind, fmt.Sprintf("scenario %s: deadlock, producer completed %d of %d sends, consumer received %v; threads: %s", h.sc, h.sent, h.pHi, abbrev(h.recv), h.s.Describe()))
 		}
 		return false
 	}
-	if consumerPresent && (len(h.recv) != h.sc.N || !h.done("consumer")) {
-		h.fail("loss:item-missing", fmt.Sprintf("scenario %s: all %d sends completed but the consumer received only %v and nothing more can arrive; overflow=%v; threads: %s", h.sc, h.sc.N, h.recv, h.overflow(), h.s.Describe()))
+	if consumerPresent && (len(h.recv) != h.take || !h.done("consumer")) {
+		h.fail("loss:item-missing", fmt.Sprintf("scenario %s: all %d sends completed but the consumer, asking for %d items, received only %v (missing %v) and nothing more can arrive; overflow=%v; threads: %s", h.sc, h.sent, h.take, abbrev(h.recv), missing(h.recv, h.take), abbrevV(h.overflow()), h.s.Describe()))
 		return false
 	}
 	return true
@@ -275,6 +305,8 @@ func (h *harness) Quiescent() bool {
 			h.checkStopped()
 			return false
 		}
+	case "deep":
+		return h.deepQuiescent()
 	default: // "c", "d": stop at any point
 		if !h.stopDone {
 			h.fail("deadlock:"+h.sc.Kind, fmt.Sprintf("scenario %s: the stopper did not complete; threads: %s", h.sc, h.s.Describe()))
@@ -304,9 +336,41 @@ func (h *harness) EndOfExecution(trace []string, complete bool) {
 	if h.failSig == "" {
 		return
 	}
+	what := "schedule = scheduler decisions thread@site:case executed against the rewritten queue.go"
+	if h.sc.Kind == "deep" {
+		what = deepWhat + " the rewritten queue.go"
+	}
 	h.sh.record(h.failSig, h.failMsg, replay{
-		Scenario: h.sc, What: "schedule = scheduler decisions thread@site:case executed against the rewritten queue.go",
+		Scenario: h.sc, What: what,
 		Received: append([]int{}, h.recv...), Sent: h.sent, Threads: h.s.Describe(), Schedule: append([]string{}, trace...)})
+}
+
+// setupScen builds the initial threads of a scenario (kinds b and deep start
+// without a consumer).
+func setupScen(sh *shard, sc scen, s *vsched.Sched) vsched.Harness {
+	if sc.Comp != "queue" {
+		return setupHandler(sh, sc, s)
+	}
+	h := newQueueHarness(sh, sc, s)
+	h.q = queue.NewConcurrentQueue(sc.B)
+	s.NameNext("worker")
+	h.q.Start()
+	s.NameNext("")
+	vsched.GoNamed("producer", h.producer)
+	switch sc.Kind {
+	case "a":
+		vsched.GoNamed("consumer", h.consumer)
+	case "c", "d":
+		if sc.K > 0 {
+			vsched.GoNamed("consumer", h.consumer)
+		}
+		vsched.GoNamed("stopper", h.stopper)
+	}
+	return h
+}
+
+func newQueueHarness(sh *shard, sc scen, s *vsched.Sched) *harness {
+	return &harness{sh: sh, sc: sc, s: s, total: sc.N + sc.M, take: sc.K, pLo: 1, pHi: sc.N}
 }
 
 func runShard(sc scen, deadlineS int) *shardResult {
@@ -315,27 +379,7 @@ func runShard(sc scen, deadlineS int) *shardResult {
 	cfg := vsched.Config{
 		Deadline:  start.Add(time.Duration(deadlineS) * time.Second),
 		MaxFailed: 2000,
-		Setup: func(s *vsched.Sched) vsched.Harness {
-			if sc.Comp != "queue" {
-				return setupHandler(sh, sc, s)
-			}
-			h := &harness{sh: sh, sc: sc, s: s}
-			h.q = queue.NewConcurrentQueue(sc.B)
-			s.NameNext("worker")
-			h.q.Start()
-			s.NameNext("")
-			vsched.GoNamed("producer", h.producer)
-			switch sc.Kind {
-			case "a":
-				vsched.GoNamed("consumer", h.consumer)
-			case "c", "d":
-				if sc.K > 0 {
-					vsched.GoNamed("consumer", h.consumer)
-				}
-				vsched.GoNamed("stopper", h.stopper)
-			}
-			return h
-		},
+		Setup: func(s *vsched.Sched) vsched.Harness { return setupScen(sh, sc, s) },
 	}
 	r := vsched.Explore(cfg)
 	out := &shardResult{Scen: sc, States: r.States, Transitions: r.Transitions, Steps: r.Steps, Executions: r.Executions,
@@ -347,6 +391,32 @@ func runShard(sc scen, deadlineS int) *shardResult {
 		out.Violations = append(out.Violations, sh.viols[k])
 	}
 	return out
+}
+
+// startWatchdog: a thread that never reaches a scheduling point (e.g. a loop
+// without channel operations) cannot be explored; that is a harness limit,
+// reported as such, never as a verdict. Store 1 in the result to disarm it.
+func startWatchdog(label string) *int32 {
+	finished := new(int32)
+	go func() {
+		last := atomic.LoadUint64(&vsched.Progress)
+		idle := 0
+		for atomic.LoadInt32(finished) == 0 {
+			time.Sleep(3 * time.Second)
+			now := atomic.LoadUint64(&vsched.Progress)
+			if now == last {
+				idle++
+			} else {
+				idle = 0
+			}
+			last = now
+			if idle >= 3 && atomic.LoadInt32(finished) == 0 {
+				fmt.Fprintf(os.Stderr, "HARNESS-ERROR: c18 %s: a thread did not reach a scheduling point for 9 s (loop without channel operations?)\n", label)
+				os.Exit(2)
+			}
+		}
+	}()
+	return finished
 }
 
 func shardMain(args []string) {
@@ -363,30 +433,9 @@ func shardMain(args []string) {
 		fmt.Fprintf(os.Stderr, "HARNESS-ERROR: c18 %s %s/B%d/N%d/K%d: %s\n", comp, args[0], b, n, k, msg)
 		os.Exit(2)
 	}
-	// Watchdog: a thread that never reaches a scheduling point (e.g. a loop
-	// without channel operations) cannot be explored; that is a harness
-	// limit, reported as such, never as a verdict.
-	var finished int32
-	go func() {
-		last := atomic.LoadUint64(&vsched.Progress)
-		idle := 0
-		for atomic.LoadInt32(&finished) == 0 {
-			time.Sleep(3 * time.Second)
-			now := atomic.LoadUint64(&vsched.Progress)
-			if now == last {
-				idle++
-			} else {
-				idle = 0
-			}
-			last = now
-			if idle >= 3 && atomic.LoadInt32(&finished) == 0 {
-				fmt.Fprintf(os.Stderr, "HARNESS-ERROR: c18 %s %s/B%d/N%d/K%d: a thread did not reach a scheduling point for 9 s (loop without channel operations?)\n", comp, args[0], b, n, k)
-				os.Exit(2)
-			}
-		}
-	}()
+	finished := startWatchdog(fmt.Sprintf("%s %s/B%d/N%d/K%d", comp, args[0], b, n, k))
 	res := runShard(scen{Comp: comp, Kind: args[0], B: b, N: n, K: k}, dl)
-	atomic.StoreInt32(&finished, 1)
+	atomic.StoreInt32(finished, 1)
 	enc := json.NewEncoder(os.Stdout)
 	if err := enc.Encode(res); err != nil {
 		ev.Fatal("encode: %v", err)
